@@ -157,6 +157,8 @@ class PumpStall(PumpFamily):
                 c["post"] = [["t"]]
                 c["incomplete"] = True
                 c["up"] = True
+            if i % 4 == 1:
+                c["wallstep"] = rng.choice([-86400, -3600, -45, 45, 3600])
             yield c
 
     def oracle(self, case, obs):
